@@ -75,6 +75,8 @@ def run_lstsq(ex, case):
             ex.assume(tobool(sv.s[i] >= 0))
             if i:
                 ex.assume(tobool(sv.s[i - 1] >= sv.s[i]))
+        # the oracle works on its own copies: the code under test must not be able to change them
+        U0, S0, V0 = sv.U.copy(), sv.s.copy(), sv.Vh.copy()
         ncalls = case.get("calls", 2)
         for call in range(ncalls):
             rc = ex.real(f"rc{call}")
@@ -96,7 +98,7 @@ def run_lstsq(ex, case):
             det = {"shape": [m, n], "cutoff": cut, "call": call, "default_rcond": use_default_rcond}
             kept = []
             for i in range(kcut):
-                keep = bool(sv.s[i] > 0) and not bool(sv.s[i] < rcv * sv.s[0])
+                keep = bool(S0[i] > 0) and not bool(S0[i] < rcv * S0[0])
                 kept.append(keep)
             if not all(kept):
                 note(ex, "rank_deficient_path")
@@ -105,10 +107,14 @@ def run_lstsq(ex, case):
                 ref = z3.RealVal(0)
                 for i in range(kcut):
                     if kept[i]:
-                        ub = z3.Sum([term(sv.U[r, i]) * term(b[r]) for r in range(m)])
-                        ref = ref + term(sv.Vh[i, j]) * ub * INV(term(sv.s[i]))
+                        ub = z3.Sum([term(U0[r, i]) * term(b[r]) for r in range(m)])
+                        ref = ref + term(V0[i, j]) * ub * INV(term(S0[i]))
                 if not ex.prove(term(x[j]) == ref, f"lstsq {m}x{n} call {call}: component {j} is not sum over kept singular values of v_i (u_i.b)/s_i", det):
                     return
+            for arr0, arr1, nm in ((U0, sv.U, "U"), (S0, sv.s, "s"), (V0, sv.Vh, "Vh")):
+                for a0, a1 in zip(arr0.flat, arr1.flat):
+                    if a0 is not a1 and not ex.prove(term(a0) == term(a1), f"lstsq call {call} modified the stored factor {nm}", det):
+                        return
         if len(ex.samples) < 1:
             ex.samples.append({"lstsq": [m, n], "calls": ncalls})
     finally:
